@@ -8,6 +8,9 @@ correspond: (PsdProj: see psd_stream — generated body of psd_proj run on exact
             Duchi's threshold: proved to satisfy the KKT hypothesis of `l1_proj_kkt_*` (`duchi_theta` for sorted
             sequences over the generated `l1projSt` / `l1projCond`, `duchiTheta_kkt` for the executable model); the
             exact KKT test per case (stream duchi-kkt) stays as a run-time cross-check of the compiled driver.
+            round 4: the model's l1_proj IS the generated body Gen/ProxBody.l1projWith (merge sort for xp.sort); stream
+            stack-generated: the generated Stack._prox / util.split / util.vec / Prox.__call__ (driver op callgen) vs the
+            real Stack; stream sort-contract: numpy.sort(|x|) is a non-decreasing permutation (hypothesis SortContract).
 search:     the property's own oracle on the real code, independent of the model: Fenchel-Young / normal-cone
             optimality certificates composed over the nesting, objective comparison against perturbations,
             projection inequality, feasible => unchanged, idempotence, output shape == input shape.
@@ -23,7 +26,8 @@ from harness.translate import gen as G
 
 PROPERTY = "C11"
 LEAN_MODULES = ["SigpyVerif.Props.C11", "SigpyVerif.Props.C11Shape", "SigpyVerif.Props.C11Psd",
-                "SigpyVerif.Props.C11Duchi", "SigpyVerif.Props.C11DuchiModel"]
+                "SigpyVerif.Props.C11Duchi", "SigpyVerif.Props.C11DuchiModel", "SigpyVerif.Props.C11L1Body",
+                "SigpyVerif.Props.C11Stack", "SigpyVerif.Props.C11More"]
 THEOREMS = ["SigpyVerif.C11." + t for t in [
     "prox_is_minimiser", "prox_unique", "prox_iff_variational", "proj_feasible_fixed", "proj_idempotent",
     "softThresh_real", "csoft_eq", "soft_thresh_prox_real", "soft_thresh_prox_complex",
@@ -41,6 +45,19 @@ THEOREMS = ["SigpyVerif.C11." + t for t in [
     "duchi_core", "duchi_theta", "duchi_index_exists", "duchi_kkt_of_sorted", "l1_proj_duchi_real", "l1_proj_duchi_complex",
     # … and of its executable model Model/C11.duchiTheta (Props/C11DuchiModel.lean)
     "sortDesc_perm", "sortDesc_sorted", "cumsum_eq", "duchi_zip_eq", "duchiTheta_kkt",
+    # the whole generated body of thresh.l1_proj (Gen/ProxBody.lean l1projWith; Props/C11L1Body.lean): sort enters only
+    # through its contract (or is the model's own merge sort), cumsum / arange / flatnonzero.max are executable list code
+    "lsum_eq_sum", "cumsumFrom_getD", "flatnonzeroMax_some", "flatnonzeroMax_none", "l1body_st_eq", "l1body_theta",
+    "l1body_cases", "msort_contract", "l1_proj_body_real", "l1_proj_body_complex", "l1_proj_exact_real",
+    "l1_proj_exact_complex", "l1_proj_body_feasible", "l1_proj_body_shape",
+    # shape clause: generated body / generated Prox.__call__ guard (Props/C11Shape.lean)
+    "l1projWith_shape", "checkShape_is_generated", "guard_is_generated",
+    # Stack._prox + util.split + util.vec generated (Props/C11Stack.lean)
+    "utilSplit_flatten", "utilVec_eq", "stackProxWith_blocks", "norm_sq_blocks", "stack_flat_prox", "stack_generated_prox",
+    # class variants (Props/C11More.lean)
+    "l1reg_prox_real_array", "l1reg_prox_complex_array", "isProxOn_slices", "l2_proj_axes_generated",
+    "l2proj_axes_bias_generated", "box_proj_point", "linf_bias_prox_complex", "csoft_kernel_arith", "csoft_polar",
+    "hard_thresh_tie", "hard_thresh_complex",
 ]]
 
 # Text for the integrator (harness/mkmanifest.py CLAIMED["C11"] is a shared file; these replace the two clauses
@@ -69,7 +86,7 @@ TOL_PSD = 1e-11   # eigh + two matrix products, n ≤ 5: observed ≤ 2.4e-15 re
 
 
 def translate(ctx):
-    G.regenerate(ctx, ["Prox"])
+    G.regenerate(ctx, ["Prox", "ProxBody"])
 
 
 # ---- exact values ---------------------------------------------------------------------------------
@@ -604,8 +621,8 @@ def compare(impl, model, tol=None):
     return None
 
 
-def _corr_stream(ctx, cases, stream):
-    lines = [line(c) for c in cases]
+def _corr_stream(ctx, cases, stream, op="call"):
+    lines = [line(c).replace("C11 call ", "C11 %s " % op, 1) for c in cases]
     replies = ctx.driver(lines)
     bad, skipped, expl = 0, 0, set()
     for c, ln, r in zip(cases, lines, replies):
@@ -643,6 +660,42 @@ def _corr_stream(ctx, cases, stream):
     if bad and "<unexplained>" not in expl:
         detail += " " + " ".join("explained-by:%s" % k for k in sorted(expl))
     ctx.oblige("correspondence:C11." + stream, "correspondence", bad == 0, detail)
+
+
+def stack_cases(rng, n):
+    """cases whose top-level operator is a Stack (blocks of 1-3 D shapes, nested operators inside)"""
+    out, tries = [], 0
+    while len(out) < n and tries < 200 * n:
+        tries += 1
+        c = gen_case(rng, "nest")
+        if c["tree"]["t"] == "stack":
+            out.append(c)
+    return out
+
+
+def sort_contract_stream(ctx, n):
+    """numpy's contract for `xp.sort` on a real 1-D array (the only way sort enters `l1_proj_body_*`): the result is a
+    non-decreasing rearrangement of the argument — checked on the moduli arrays `l1_proj` sorts (ties, zeros, complex)"""
+    rng = ctx.rng
+    bad = 0
+    for _ in range(n):
+        m = rng.randint(1, 12)
+        cplx = rng.random() < 0.4
+        ph = phase_vec(rng, m, cplx, False)
+        zs = [times(v, u) for v, u in zip(rvals(rng, m), ph)]
+        x = to_float(zs, [m], cplx)
+        a = np.abs(x)
+        srt = np.sort(a)
+        ctx.case(("sort", CL(zs)), nontrivial=(m > 1))
+        ok = srt.shape == a.shape and bool(np.all(srt[:-1] <= srt[1:])) and sorted(a.tolist()) == srt.tolist() \
+            and srt[::-1].tolist() == sorted(a.tolist(), reverse=True) \
+            and np.cumsum(srt[::-1]).tolist() == [float(v) for v in np.add.accumulate(srt[::-1])]
+        if not ok:
+            bad += 1
+            ctx.disagree("sort-contract", dict(x=zs), srt.tolist(), sorted(a.tolist()))
+    ctx.oblige("correspondence:C11.sort-contract", "correspondence", bad == 0,
+               "%d arrays where numpy.sort(|x|) is not a non-decreasing permutation of |x| (hypothesis SortContract of "
+               "l1_proj_body_real / _complex)" % bad)
 
 
 def l1nd_cases(rng, n):
@@ -1007,6 +1060,9 @@ def correspond(ctx):
     _corr_stream(ctx, [gen_case(rng, "leaf") for _ in range(800 if q else 6000)], "leaf")
     _corr_stream(ctx, [gen_case(rng, "nest") for _ in range(1200 if q else 9000)], "nestings")
     _corr_stream(ctx, l1nd_cases(rng, 150 if q else 1000), "l1proj-nd")
+    # the GENERATED Stack._prox / util.split / util.vec / Prox.__call__ (driver op `callgen`) against the real Stack
+    _corr_stream(ctx, stack_cases(rng, 150 if q else 1200), "stack-generated", op="callgen")
+    sort_contract_stream(ctx, 200 if q else 1500)
     thresh_cases(ctx, 400 if q else 3000)
     exact_stream(ctx, 400 if q else 3000)
     kkt_stream(ctx, 400 if q else 3000)
